@@ -104,7 +104,7 @@ let check_component name keys ops final nofinal budget =
     for i = 0 to n - 1 do if required i && not (finished i) then alldone := false done;
     if !alldone && final_ok srv !last_sec then raise Found;
     (* the replies of the stages already done decide whether a staged op can still match *)
-    let key = Bytes.to_string prog ^ Marshal.to_string (srv, partial) [] in
+    let key = Digest.string (Bytes.to_string prog ^ Marshal.to_string (srv, partial) []) in
     if Hashtbl.mem memo key then () else begin
       Hashtbl.add memo key ();
       (* the earliest response among unfinished required ops bounds what may come next *)
